@@ -195,6 +195,36 @@ def unsaturated_exp(term, bounded_names=(), res=None):
     return out
 
 
+def log_of_vanishing_product(term, bounded_names=()):
+    """log(X) nodes where X is a product / quotient with an exp(arg) factor in the numerator, arg depending on something other than
+    `bounded_names` and not provably non-negative: the factor underflows to 0 for admissible inputs (beyond ~39 standard
+    deviations for a Gaussian) and the log is -inf where the log-density is finite.  (The algebra cancels log(exp(x)) = x; floating
+    point does not.)"""
+    out = []
+
+    def numer_factors(e):
+        if isinstance(e, ast.BinOp) and isinstance(e.op, ast.Mult):
+            return numer_factors(e.left) + numer_factors(e.right)
+        if isinstance(e, ast.BinOp) and isinstance(e.op, ast.Div):
+            return numer_factors(e.left)
+        if isinstance(e, ast.UnaryOp):
+            return numer_factors(e.operand)
+        return [e]
+    for n in ast.walk(term):
+        if isinstance(n, ast.Call) and ast.unparse(n.func).split(".")[-1] in ("log", "log2", "log10") and len(n.args) == 1:
+            for f in numer_factors(n.args[0]):
+                if isinstance(f, ast.BinOp) and isinstance(f.op, ast.Pow):
+                    f = f.left
+                if isinstance(f, ast.Call) and ast.unparse(f.func).split(".")[-1] in ("exp", "exp2") and len(f.args) == 1:
+                    arg = f.args[0]
+                    free = {x.id for x in ast.walk(arg) if isinstance(x, ast.Name)} - set(bounded_names)
+                    attrs = [x for x in ast.walk(arg) if isinstance(x, ast.Attribute)]
+                    if free or attrs:
+                        out.append(n)
+                        break
+    return out
+
+
 # J6  integer-dtype hazards: places where a legal integer-typed input silently turns float arithmetic into integer arithmetic
 FLOAT_DTYPES = {"float", "float64", "float32", "double", "complex", "complex128", "'float'", "'float64'", "'f8'", "longdouble"}
 LIKE_FUNCS = {"zeros_like", "empty_like", "ones_like", "full_like"}
